@@ -678,9 +678,15 @@ impl Game {
     }
 
     pub fn update_phase(&mut self) {
-        if self.is_endgame() {
+        if self.phase != GamePhase::Endgame && self.is_endgame() {
             self.piece_scores[PieceType::King as usize].set(&scores::KING_SCORES_END);
             self.phase = GamePhase::Endgame;
+
+            // The kings were scored with the middlegame table, score them again
+            for player in [Player::White, Player::Black] {
+                let position = self.get_king_position(player);
+                self.set_position(position, self.get_position(position));
+            }
         }
     }
 
